@@ -5,6 +5,7 @@ import (
 	"go/ast"
 	"go/token"
 	"go/types"
+	"os"
 	"strings"
 
 	"j5verif/checker/core"
@@ -41,7 +42,13 @@ func Determinism(r *core.Run, sc *Scope, table string) {
 				if _, isMap := info.TypeOf(x.X).Underlying().(*types.Map); !isMap {
 					return true
 				}
-				o := r.Add("R-DET/N1", siteKey(f, "range "+core.ExprStr(x.X)), x.Pos(), "range over map "+core.ExprStr(x.X))
+				key := siteKey(f, "range "+core.NormExpr(info, x.X))
+				if os.Getenv("J5CHECK_KEYMAP") != "" {
+					if oldk := siteKey(f, "range "+core.ExprStr(x.X)); oldk != key {
+						fmt.Fprintf(os.Stderr, "KEYMAP\t%s\t%s\n", oldk, key)
+					}
+				}
+				o := r.Add("R-DET/N1", key, x.Pos(), "range over map "+core.ExprStr(x.X))
 				if why, ok := orderInsensitive(info, f, x.Body, x); ok {
 					o.Auto("%s", why)
 				} else if !r.Table(table, o) {
